@@ -4,9 +4,9 @@
  * (CBMC keeps them field-sensitive: the resume pointers inside GenCallback elements stay concrete) and a buffer never grows.
  *   T()            : empty, no buffer                      vector(vector&&) : steals the buffer, source left empty
  *   reserve(n)     : n <= capacity: nothing; otherwise only on a vector without buffer: attaches a row with capacity n
- *   emplace_back   : constructs the element in place with the REAL translated constructor (CV_VEC_CONSTRUCT_<tag>); a vector without
- *                    buffer gets a row of full model capacity first (std::vector's geometric growth, which MOVES the elements, is not
- *                    modelled); on a full buffer: element types registered as `pinned` (other objects hold pointers to the elements)
+ *   emplace_back   : constructs the element in place with the REAL translated constructor; a vector without buffer gets a row of full
+ *                    model capacity first (std::vector's geometric growth, which MOVES the elements, is not modelled) - pinned element
+ *                    types get room for exactly one element, as the real vector does; on a full buffer: element types registered as `pinned` (other objects hold pointers to the elements)
  *                    make this an OBLIGATION on the code - a reallocation would leave those pointers dangling - otherwise a model bound
  *   back/size/begin/end, ~vector : destroys every element in order with the REAL translated destructor, releases the buffer
  * Heap accounting: attaching a row counts as one allocation (gh_allocs), releasing it as one deallocation (gh_frees).
@@ -27,17 +27,17 @@ unsigned gh_vec_attached, gh_vec_released;
     T *b = cvv_##tag##_used == 0 ? cvv_##tag##_pool0 : cvv_##tag##_pool1; cvv_##tag##_used++; gh_allocs++; gh_vec_attached++; CV_VS(v) = b; CV_VF(v) = b; CV_VE(v) = b + n; }
 #define CV_VEC_CTOR(fn, VT)            void fn(VT *v) { CV_VS(v) = 0; CV_VF(v) = 0; CV_VE(v) = 0; }
 #define CV_VEC_MOVE(fn, VT)            void fn(VT *v, VT *o) { CV_VS(v) = CV_VS(o); CV_VF(v) = CV_VF(o); CV_VE(v) = CV_VE(o); CV_VS(o) = 0; CV_VF(o) = 0; CV_VE(o) = 0; }
-#define CV_VEC_SIZE(fn, VT, T)         cv_i64 fn(VT *v) { return CV_VF(v) - CV_VS(v); }
+#define CV_VEC_SIZE(fn, VT, T)         cv_i64 fn(VT *v) { return CV_VS(v) == 0 ? 0 : CV_VF(v) - CV_VS(v); }
 #define CV_VEC_BEGIN(fn, VT, T)        T *fn(VT *v) { return CV_VS(v); }
 #define CV_VEC_END(fn, VT, T)          T *fn(VT *v) { return CV_VF(v); }
 #define CV_VEC_BACK(fn, VT, T)         T *fn(VT *v) { __CPROVER_assert(CV_VF(v) != CV_VS(v), "std::vector::back() on a non-empty vector"); return CV_VF(v) - 1; }
-#define CV_VEC_RESERVE(fn, VT, T, tag) void fn(VT *v, cv_i64 n) { if (n <= (cv_i64)(CV_VE(v) - CV_VS(v))) return; \
+#define CV_VEC_RESERVE(fn, VT, T, tag) void fn(VT *v, cv_i64 n) { if (n <= (CV_VS(v) == 0 ? 0 : (cv_i64)(CV_VE(v) - CV_VS(v)))) return; \
     __CPROVER_assert(CV_VS(v) == 0, "model bound: reserve() grows only a vector that has no buffer yet"); cvv_##tag##_attach(v, n); }
-#define CV_VEC_DTOR(fn, VT, T, CAP, ELEM_DTOR) void fn(VT *v) { T *b = CV_VS(v); cv_i64 n = CV_VF(v) - b; \
+#define CV_VEC_DTOR(fn, VT, T, CAP, ELEM_DTOR) void fn(VT *v) { T *b = CV_VS(v); cv_i64 n = b == 0 ? 0 : CV_VF(v) - b;   /* no pointer difference on null pointers */ \
     for (cv_i64 i = 0; i < CAP; i++) if (i < n) ELEM_DTOR(b + i); \
     if (b != 0) { gh_frees++; gh_vec_released++; } CV_VS(v) = 0; CV_VF(v) = 0; CV_VE(v) = 0; }
 /* slot for emplace_back: PINNED = 1 for element types whose addresses are registered elsewhere */
-#define CV_VEC_SLOT(v, T, CAP, tag, PINNED) ({ if (CV_VS(v) == 0) cvv_##tag##_attach(v, CAP); \
+#define CV_VEC_SLOT(v, T, CAP, tag, PINNED) ({ if (CV_VS(v) == 0) cvv_##tag##_attach(v, (PINNED) ? 1 : CAP);   /* unreserved: std::vector starts with room for ONE element */ \
     if (PINNED) __CPROVER_assert(CV_VF(v) != CV_VE(v), "emplace_back stays within the reserved capacity (a reallocation would move elements that other objects point to)"); \
     else __CPROVER_assert(CV_VF(v) != CV_VE(v), "model bound: vector capacity"); \
     T *cv_slot = CV_VF(v); CV_VF(v) = cv_slot + 1; cv_slot; })
